@@ -6,3 +6,9 @@ from . import gen_cache
 @register_gen("cache")
 def _cache(repo):
     return gen_cache.generate(repo)
+from . import gen_engine
+
+
+@register_gen("engine")
+def _engine(repo):
+    return gen_engine.generate(repo)
